@@ -182,7 +182,7 @@ def answer (w : World) : Call → Resp
         -- a magic-link `thread-self/fd/<d-1>`
         match w.dpath (d - 1) with
         | some p => .bytes (w.render p)
-        | none => .bytes b!"/(unreachable)"
+        | none => .bytes [0]   -- some path that is not below the root (never equal to a path of proper components)
       else if w.kind d = .lnk then .bytes (w.body d)
       else .err EINVAL
   | .fstatfs d => if d = threadSelf ∨ d = procRoot ∨ d % 2 = 1 then .nums [PROC_SUPER_MAGIC] else .nums [0xEF53]
